@@ -324,6 +324,10 @@ func (env *SpecEnv) ident(name string) Val {
 		return env.result[i]
 	}
 	if v, ok := env.lookupVar(name); ok {
+		if v.Deref && v.Addr != nil {
+			out := e.c.load(env.cells, v.Addr)
+			return out
+		}
 		return v
 	}
 	if o := env.lookupObj(name); o != nil {
@@ -941,6 +945,28 @@ func (env *SpecEnv) callPure(fn *ssa.Function, args []Val) Val {
 	if fn == nil {
 		env.fail("no SSA for function")
 	}
+	if e.pureCalls[fullKey(fn)] {
+		// the same uninterpreted function as at the call sites in the code of this unit
+		var ats []Term
+		var sorts []string
+		for _, a := range args {
+			for _, t := range a.L {
+				ats = append(ats, t)
+				sorts = append(sorts, t.Sort.String())
+			}
+		}
+		rs := fn.Signature.Results()
+		if rs.Len() != 1 {
+			env.fail("purecalls: %s must have one result", fn.Name())
+		}
+		v := Val{Typ: rs.At(0).Type()}
+		for li, l := range leavesOf(rs.At(0).Type()) {
+			name := fmt.Sprintf("call_%s_%d_%d", sanitize(fullKey(fn)), 0, li)
+			c.declareFun(name, sorts, l.Sort)
+			v.L = append(v.L, c.app(l.Sort, name, ats...))
+		}
+		return v
+	}
 	// a contract marked pure+trusted/with ensures could be used instead; default: inline
 	before := cloneCells(env.cells)
 	saved := e.safety
@@ -1231,10 +1257,19 @@ func (env *SpecEnv) opaqueConst(sf *SpecFunc, sub *SpecEnv, name string, rt type
 				info, ok = c.iteBV[a.S]
 			}
 			if ok {
-				a1 := append(append([]Term{}, args[:i]...), info.a)
-				a1 = append(a1, args[i+1:]...)
-				a2 := append(append([]Term{}, args[:i]...), info.b)
-				a2 = append(a2, args[i+1:]...)
+				// all arguments that are if-then-else terms over the same condition are split together
+				a1 := append([]Term{}, args...)
+				a2 := append([]Term{}, args...)
+				for k, ak := range args {
+					ik, okk := c.iteInfo[ak.S]
+					if !okk {
+						ik, okk = c.iteBV[ak.S]
+					}
+					if okk && ik.cond.S == info.cond.S {
+						a1[k], a2[k] = ik.a, ik.b
+					}
+				}
+				_ = i
 				return c.ite(info.cond, env.opaqueConst(sf, sub, name, rt, rs, a1, depth+1), env.opaqueConst(sf, sub, name, rt, rs, a2, depth+1))
 			}
 		}
